@@ -332,6 +332,32 @@ static inline bool m_mul(M &m, const DW *pp) {
     m = e; return fits;
 }
 
+// m*k in the oracle's own arithmetic (used when the real DoubleSize runs).
+#ifdef VBITS
+static inline bool m_mul_native(M &m, W k) {   // sum_i (word_i * k) << (WB*i) in V arithmetic; every term and partial sum below 2^TOT
+    V acc = 0; bool fits = true;
+    for (unsigned i = 0; i < NW; i++) {
+        const V p = (V)m_word(m, i) * (V)k;                       // < 2^(2*WB) <= 2^VBITS
+        const unsigned room = TOT - WB * i;                       // bits available at this position (>= WB)
+        if (room < 2U * WB && (p >> (room & (VBITS - 1U))) != 0) fits = false;
+        const V t = (V)(p << (WB * i));
+        const V s = acc + t;
+        if (s < acc || !m_fit(s)) fits = false;
+        acc = s;
+    }
+    m = acc; return fits;
+}
+#else
+static inline bool m_mul_native(M &m, W k) {   // carry chain over exact double-width word products
+    W c = 0;
+    for (unsigned i = 0; i < NW; i++) {
+        const DW p = (DW)(wmul(m.w[i], k) + (DW)c);
+        m.w[i] = (W)p; c = (W)(p >> WB);
+    }
+    return c == 0;
+}
+#endif
+
 // =================================================== operations ===================================================
 extern "C" void h_add() {            // Add(number, index)
     B b; any_state(b);
@@ -381,23 +407,21 @@ extern "C" void h_mul() {            // Multiply / *=   (with -DDS_CONTRACT: ove
     vf_assume(k == 0 && b.index_ != 0);
 #endif
     M m = m_of(b);
-    DW pp[NW];                       // the exact word products; words above the index are zero
 #ifdef DS_CONTRACT
+    DW pp[NW];                       // the word products; words above the index are zero
     for (unsigned i = 0; i < NW; i++) {          // what DoubleSize::Multiply(word_i, k) returns: see the stand-in
         const DW p = any_dw();
         vf_assume((p == 0) == (b.storage_[i] == 0 || k == 0));
         vf_assume(p <= (DW)((DW)(W)~W(0) * (DW)(W)~W(0)));
         pp[i] = p;
     }
-#else
-    for (unsigned i = 0; i < NW; i++) pp[i] = wmul(b.storage_[i], k);   // the real DoubleSize runs; exact products for the oracle
-#endif
-#ifdef DS_CONTRACT
     const unsigned idx = b.index_;   // call c multiplies word idx - c
     for (unsigned c = 0; c < NW; c++) if (c <= idx) { g_ma[c] = b.storage_[(idx - c) % NW]; g_mk[c] = k; g_mp[c] = pp[(idx - c) % NW]; }
     g_n = 0;
-#endif
     vf_assume(m_mul(m, pp));
+#else
+    vf_assume(m_mul_native(m, k));   // the real DoubleSize runs; the oracle multiplies natively
+#endif
     b *= k;
 #ifdef DS_CONTRACT
     vf_assert(g_n == idx + 1U, 4);   // one DoubleSize::Multiply per word, top down, each on the ORIGINAL word (assertion 91)
